@@ -2,7 +2,7 @@ use crate::rt::execution;
 use crate::rt::object::Operation;
 use crate::rt::vv::VersionVec;
 
-use std::{any::Any, collections::HashMap, fmt, ops};
+use std::{any::Any, collections::BTreeMap, fmt, ops};
 
 use super::Location;
 pub(crate) struct Thread {
@@ -94,9 +94,12 @@ pub(crate) enum State {
     Terminated,
 }
 
-type LocalMap = HashMap<LocalKeyId, LocalValue>;
+// An ordered map: the values are dropped in iteration order when the thread
+// finishes, and their destructors may perform loom operations, so the order
+// must not vary from run to run.
+type LocalMap = BTreeMap<LocalKeyId, LocalValue>;
 
-#[derive(Eq, PartialEq, Hash, Copy, Clone)]
+#[derive(Eq, PartialEq, Ord, PartialOrd, Hash, Copy, Clone)]
 struct LocalKeyId(usize);
 
 struct LocalValue(Option<Box<dyn Any>>);
@@ -117,7 +120,7 @@ impl Thread {
             unparked: false,
             parked: false,
             unpark_causality: VersionVec::new(),
-            locals: HashMap::new(),
+            locals: BTreeMap::new(),
         }
     }
 
